@@ -189,6 +189,9 @@ fn run_svd3(c: &mut Ctx) {
             c.eval();
             c.close("Iso3::from(&SvdBasis3)", "maps the centre to the origin", wname, (iso * b.center).coords.norm(), 0.0, tol);
             c.close("Iso3::from(&SvdBasis3)", "maps the first axis to x", wname, (iso * b.basis[0] - Vector3::x()).norm(), 0.0, 1e-6);
+            // the frame agrees with point_to_basis on the second axis as well (the third is fixed by
+            // right-handedness, whatever the handedness of the decomposition)
+            c.close("Iso3::from(&SvdBasis3)", "maps the second axis to y", wname, (iso * b.basis[1] - Vector3::y()).norm(), 0.0, 1e-6);
         }
     }
     if dim >= 1 {
@@ -283,7 +286,7 @@ fn special_vec3(c: &mut Ctx) -> Vector3 {
 
 fn run_frames(c: &mut Ctx) {
     let a = special_vec3(c);
-    let la = c.rng.log_range(1e-3, 1e3);
+    let la = if c.rng.chance(0.3) { c.rng.log_range(1e-7, 1e-3) } else { c.rng.log_range(1e-3, 1e3) };
     let kind = c.rng.int(0, 9);
     let (b, name): (Vector3, &str) = match kind {
         0 => (a * c.rng.sign(), "parallel"),
@@ -300,7 +303,7 @@ fn run_frames(c: &mut Ctx) {
         4 => (special_vec3(c), "axis-or-random"),
         _ => (gen::unit3(&mut c.rng), "general"),
     };
-    let lb = c.rng.log_range(1e-3, 1e3);
+    let lb = if c.rng.chance(0.3) { c.rng.log_range(1e-7, 1e-3) } else { c.rng.log_range(1e-3, 1e3) };
     let (e_a, e_b) = (if kind == 8 { Vector3::zeros() } else { a * la }, b * lb);
     let name = if kind == 8 { "zero-first" } else { name };
     let origin = if c.rng.bool() { Some(Point3::new(c.rng.range(-1e3, 1e3), c.rng.range(-1e3, 1e3), c.rng.range(-1e3, 1e3))) } else { None };
@@ -329,7 +332,8 @@ fn run_frames(c: &mut Ctx) {
         c.check(&api, "fails for parallel or zero inputs", name, res.is_none(), || format!("Ok for first {e_a:?} second {e_b:?}"));
         return;
     }
-    if cr < 1e-8 || e_a.norm() < 1e-8 {
+    // what matters is the second argument's component perpendicular to the (normalised) first
+    if cr / e_a.norm() < 1e-8 || e_a.norm() < 1e-8 {
         c.note("frame constructor input inside the parallel/zero guard band (not judged)");
         return;
     }
